@@ -21,9 +21,7 @@ size_t g_ea_idx, g_spm_r;
 #include "datastruct/elasticarray.c"
 #include "datastruct/elasticqueue.c"
 #include "datastruct/seqptrmap.c"
-#define EA_B(EA, i) (((uint8_t *)((EA)->buf))[i])
-#define SPM_Q(M) ((M)->ptrs)
-#define SPM_REC(M, r) (*(void **)&EA_B(SPM_Q(M)->EA, (SPM_Q(M)->offset + (r)) * sizeof(void *)))
+#include "c12_defs.h"
 #include "spm.h"
 
 static void *
